@@ -362,9 +362,13 @@ func factsChroot(repo string) {
 	emit("-- chrootarchive")
 	flags := "none"
 	switchInSetup := false
+	unshareCalls := 0
 	if fd, _ := findFunc(p, "goInChroot", ""); fd != nil {
 		le := e.withLocals(fd.Body)
 		ast.Inspect(fd.Body, func(n ast.Node) bool {
+			if ce, ok := n.(*ast.CallExpr); ok && isSel(ce.Fun, "unshare", "Go") {
+				unshareCalls++
+			}
 			if ce, ok := n.(*ast.CallExpr); ok && isSel(ce.Fun, "unshare", "Go") && len(ce.Args) == 3 {
 				c := le.eval(ce.Args[0], 0)
 				if u, ok := constant.Uint64Val(c); ok && c.Kind() == constant.Int {
@@ -372,10 +376,21 @@ func factsChroot(repo string) {
 				}
 				if fl, ok := ce.Args[1].(*ast.FuncLit); ok {
 					sawSlave := false
-					ast.Inspect(fl.Body, func(m ast.Node) bool {
-						if isCall(m, "mount", "MakeRSlave") {
-							sawSlave = true
+					// the call has to be made on every path: a top-level statement of the set-up function, either
+					// `if err := mount.MakeRSlave("/"); err != nil { return … }` or a plain call
+					for _, st := range fl.Body.List {
+						switch v := st.(type) {
+						case *ast.IfStmt:
+							if as, ok := v.Init.(*ast.AssignStmt); ok && len(as.Rhs) == 1 && isCall(as.Rhs[0], "mount", "MakeRSlave") {
+								sawSlave = true
+							}
+						case *ast.ExprStmt:
+							if isCall(v.X, "mount", "MakeRSlave") {
+								sawSlave = true
+							}
 						}
+					}
+					ast.Inspect(fl.Body, func(m ast.Node) bool {
 						if rs, ok := m.(*ast.ReturnStmt); ok && len(rs.Results) == 1 && isCall(rs.Results[0], "mounttree", "SwitchRoot") && sawSlave {
 							if id, ok := rs.Results[0].(*ast.CallExpr).Args[0].(*ast.Ident); ok && id.Name == "path" {
 								switchInSetup = true
@@ -392,7 +407,11 @@ func factsChroot(repo string) {
 			return true
 		})
 	}
-	emit("/-- the flag word `goInChroot` passes to `unshare.Go` -/")
+	if unshareCalls != 1 {
+		// more than one way into the jail (a fast path, a fallback): the flag word is not *the* flag word
+		flags = "none"
+	}
+	emit("/-- the flag word `goInChroot` passes to `unshare.Go` — `none` unless there is exactly one such call -/")
 	emit("def goInChrootFlags? : Option Nat := %s", flags)
 	emit("/-- `goInChroot`'s setup function is MakeRSlave(\"/\") then `return mounttree.SwitchRoot(path)`, and `fn` is run unchanged -/")
 	emit("def switchRootInSetup : Bool := %s", boolLean(switchInSetup))
@@ -1213,5 +1232,61 @@ func factsOrder(p *pkg) {
 		emit("/-- first occurrence, in source order, of the guard and of the calls that touch the file system in %s -/", fn)
 		emit("def %sOrder : List String := %s", lowerFirst(fn), leanStrList(ord))
 	}
+	emit("")
+}
+
+// ---------------------------------------------------------------- internal/mounttree: SwitchRoot
+
+// factsSwitchRoot: what makes the new root a jail — exactly one pivot_root, of (path, pivotDir); the old root is
+// made private *recursively* before it is detached (so the detach does not propagate to the host's mounts);
+// and the order bind → pivot → chdir → private → detach.
+func factsSwitchRoot(repo string) {
+	p := loadPkg(filepath.Join(repo, "internal", "mounttree"))
+	uc := unixConsts(repo, []string{"MS_PRIVATE", "MS_REC", "MS_SLAVE", "MS_SHARED", "MNT_DETACH"})
+	e := p.env(uc)
+	emit("-- internal/mounttree: SwitchRoot")
+	var pivots []string
+	privRec := false
+	var order []string
+	if fd, fset := findFunc(p, "SwitchRoot", ""); fd != nil {
+		le := e.withLocals(fd.Body)
+		order = callOrder(fset, fd, map[string]string{"mount.Mount": "bind", "os.MkdirTemp": "mkdtemp", "unix.PivotRoot": "pivot",
+			"unix.Chdir": "chdir", "unix.Mount": "private", "unix.Unmount": "detach"})
+		_ = le
+	}
+	for _, fn := range p.sortedFiles() {
+		f := p.files[fn]
+		ast.Inspect(f, func(n ast.Node) bool {
+			ce, ok := n.(*ast.CallExpr)
+			if !ok {
+				return true
+			}
+			if isSel(ce.Fun, "unix", "PivotRoot") {
+				var as []string
+				for _, a := range ce.Args {
+					as = append(as, exprString(p.fset, a))
+				}
+				pivots = append(pivots, strings.Join(as, ", "))
+			}
+			if isSel(ce.Fun, "unix", "Mount") && len(ce.Args) == 5 {
+				// flags in terms of x/sys/unix constants
+				c := e.eval(ce.Args[3], 0)
+				if u, ok := constant.Uint64Val(c); ok && c.Kind() == constant.Int {
+					pv, _ := constant.Uint64Val(uc["unix.MS_PRIVATE"])
+					rc, _ := constant.Uint64Val(uc["unix.MS_REC"])
+					if pv != 0 && rc != 0 && u&pv != 0 && u&rc != 0 {
+						privRec = true
+					}
+				}
+			}
+			return true
+		})
+	}
+	sort.Strings(pivots)
+	emit("/-- the argument lists of every pivot_root call of the package -/")
+	emit("def switchRootPivots : List String := %s", leanStrList(pivots))
+	emit("/-- the old root is remounted MS_PRIVATE|MS_REC before it is detached -/")
+	emit("def switchRootPrivateRec : Bool := %s", boolLean(privRec))
+	emit("def switchRootOrder : List String := %s", leanStrList(order))
 	emit("")
 }
